@@ -539,6 +539,11 @@ func runC18(t *testing.T, rep *mc.Reporter) {
 			rep.Exec(cs, nil, c11sExec(cs))
 			return
 		}
+		var xs c18xScenario
+		if json.Unmarshal(rp.Scenario, &xs) == nil && xs.Family == "xafterx" {
+			rep.Exec(xs, nil, c18xExec(t, xs))
+			return
+		}
 		var scn c18Scenario
 		if err := json.Unmarshal(rp.Scenario, &scn); err != nil {
 			rep.Machinery("bad replay scenario: "+err.Error(), nil)
@@ -621,6 +626,11 @@ func runC18(t *testing.T, rep *mc.Reporter) {
 				}
 			}
 		}
+	}
+	// ---- family "X after X": a later command of the same name and argument count with its keys at
+	// other positions, in one run of the tool (c18x_test.go)
+	if fam == "" || fam == "xafterx" {
+		c18xFamily(t, rep, tier, shard, nshards, budget, &idx)
 	}
 	// ---- family "chose" (part of C11 only): the checkpoint-key search over a reused buffer (c11s_test.go)
 	if fam == "snap" || fam == "chose" {
